@@ -222,6 +222,8 @@ func protoSocks5() *Proto {
 				{Name: "socks5{auth_methods=0}", M: &l4socks.Socks5Matcher{AuthMethods: []uint16{0}}},
 				{Name: "socks5{auth_methods=0,2,128,255}", M: &l4socks.Socks5Matcher{AuthMethods: []uint16{0, 2, 128, 255}}},
 				{Name: "socks5{auth_methods=0,1,2,3}", M: &l4socks.Socks5Matcher{AuthMethods: []uint16{0, 1, 2, 3}}, MatchesValid: true},
+				{Name: "socks5{auth_methods=2}", M: &l4socks.Socks5Matcher{AuthMethods: []uint16{2}}},
+				{Name: "socks5{auth_methods=1,2}", M: &l4socks.Socks5Matcher{AuthMethods: []uint16{1, 2}}},
 			})
 		},
 		Valid: func(r Rand, _ bool) []byte {
